@@ -323,3 +323,42 @@ package locate
 //@       regionErr.FlashbackInProgress == nil && regionErr.FlashbackNotPrepared == nil && regionErr.RegionNotFound == nil && regionErr.KeyNotInRegion == nil && regionErr.EpochNotMatch == nil &&
 //@       regionErr.BucketVersionNotMatch == nil && regionErr.ServerIsBusy == nil && regionErr.StaleCommand != nil && s.replicaSelector == nil && old(s.Stats) == nil && shouldRetry && err == nil ==>
 //@       bo.backoffTimes[staleCmdKind()] == old(bo.backoffTimes[staleCmdKind()]) + 1
+
+// A NotLeader answer is retried for free only by following its leader hint to a peer that still has attempts left or has
+// not itself answered NotLeader to this request: when the hint names a peer that already did and has used up its attempts
+// (the hints go round in a circle - leadership is still moving; following the hint would re-arm that peer), or names
+// nobody, the retry is paid for with a region-scheduling back-off, whose budget eventually ends the call. Together with
+// the two facts below - a send consumes one attempt of its target, and attempts are re-armed only by a leader hint for an
+// exhausted peer - the number of unpaid sends of one request is bounded.
+//@ spec func hintedSpent(s *replicaSelector, leader *metapb.Peer, tgt *replica) bool { return exists i int :: 0 <= i && i < len(s.replicas) && s.replicas[i] != nil &&
+//@     (s.replicas[i].peer == leader || (s.replicas[i].peer != nil && s.replicas[i].peer.Id == leader.Id && s.replicas[i].peer.StoreId == leader.StoreId)) &&
+//@     ((s.replicas[i].flag / 4) % 2 == 1 || s.replicas[i] == tgt) && (s.replicas[i].attempts >= maxReplicaAttempt || s.replicas[i].attemptedTime >= maxReplicaAttemptTime) }
+//@ func (*replicaSelector) onNotLeader
+//@   prop C10
+//@   may-panic
+//@   requires notLeader != nil
+//@   opaque-callee updateLeader ToBackoffReasonString
+//@   loop 1 invariant same: s.replicas == old(s.replicas) && s.target == old(s.target) && bo.backoffTimes[retry.regionSchedulingKind()] == old(bo.backoffTimes[retry.regionSchedulingKind()])
+//@   loop 1 invariant idx: -1 <= rangeindex && rangeindex < len(s.replicas)
+//@   loop 1 invariant none: forall i int :: 0 <= i && i <= rangeindex && s.replicas[i] != nil ==> !((s.replicas[i].peer == notLeader.Leader || (s.replicas[i].peer != nil && s.replicas[i].peer.Id == notLeader.Leader.Id && s.replicas[i].peer.StoreId == notLeader.Leader.StoreId)) &&
+//@       (s.replicas[i].flag / 4) % 2 == 1 && (s.replicas[i].attempts >= maxReplicaAttempt || s.replicas[i].attemptedTime >= maxReplicaAttemptTime))
+//@   loop 1 invariant frame: forall i int :: 0 <= i && i < len(s.replicas) && s.replicas[i] != nil ==> s.replicas[i].attempts == old(s.replicas[i].attempts) && s.replicas[i].attemptedTime == old(s.replicas[i].attemptedTime) && s.replicas[i].peer == old(s.replicas[i].peer) &&
+//@       (s.replicas[i].flag / 4) % 2 == ite(s.replicas[i] == s.target, 1, (old(s.replicas[i].flag) / 4) % 2)
+//@   ensures noleader: notLeader.Leader == nil && shouldRetry ==> bo.backoffTimes[retry.regionSchedulingKind()] == old(bo.backoffTimes[retry.regionSchedulingKind()]) + 1
+//@   ensures cycle: notLeader.Leader != nil && old(hintedSpent(s, notLeader.Leader, s.target)) && shouldRetry ==> bo.backoffTimes[retry.regionSchedulingKind()] == old(bo.backoffTimes[retry.regionSchedulingKind()]) + 1
+
+// Following a leader hint re-arms the hinted replica only when it is exhausted (one more attempt), and clears its
+// not-leader marks.
+//@ func (*replica) onUpdateLeader
+//@   prop C10
+//@   ensures rearm: r.attempts == ite(old(r.attempts) >= maxReplicaAttempt || old(r.attemptedTime) >= maxReplicaAttemptTime, maxReplicaAttempt - 1, old(r.attempts))
+//@   ensures marks: (r.flag / 4) % 2 == 0 && (r.flag / 16) % 2 == 0
+
+// A context handed out for sending has consumed one attempt of its target replica.
+//@ func (*baseReplicaSelector) buildRPCContext
+//@   prop C10
+//@   may-panic
+//@   opaque-callee getStoreAddr invalidateRegion VerID isEpochStale
+//@   requires distinct: targetReplica != proxyReplica
+//@   ensures consumed: result0 != nil ==> targetReplica != nil && targetReplica.attempts == old(targetReplica.attempts) + 1 && result0.Peer == targetReplica.peer && result0.Store == targetReplica.store
+//@   ensures untouched: result0 == nil && targetReplica != nil ==> targetReplica.attempts <= old(targetReplica.attempts) + 1
